@@ -20,7 +20,8 @@
 (* content addressed, so resolving HashN(c) yields c (Load); what is       *)
 (* actually available in the Database object / on disk is tracked by       *)
 (* `synced` for the current root only (older roots are checked by the      *)
-(* harness with its own root table).                                       *)
+(* harness with its own root table); a hashNode held in memory carries a   *)
+(* ghost bit saying whether the node it replaced had been written.         *)
 (*                                                                         *)
 (* One action per public call:                                             *)
 (*   Update(k,v) = TryUpdate (v = 0: the empty value, i.e. delete)         *)
@@ -42,7 +43,12 @@ CONSTANTS KeyTab,  \* <<key_1, .., key_n>>: each a sequence of nibbles of even l
           Digits,  \* the nibble values that occur in KeyTab
           Vals,    \* non-empty values 1..n ; 0 is the empty value / absent
           VLen,    \* [Vals -> Nat]: byte length of the concrete value (decides embedding)
-          Limit    \* SetCacheLimit: generations a clean node stays loaded
+          Limit,   \* SetCacheLimit: generations a clean node stays loaded
+          EmptyProofAsCoded  \* TRUE: VerifyProof(emptyRoot, ..) is an error (the code);
+                             \* FALSE: it confirms the absence (the property as stated)
+
+ASSUME /\ \A v \in Vals : VLen[v] \in 1..55          \* short SER strings (size formula below)
+       /\ \A i \in 1..Len(KeyTab) : Len(KeyTab[i]) % 2 = 0 /\ \A j \in 1..Len(KeyTab[i]) : KeyTab[i][j] \in Digits
 
 T      == 16                    \* terminator nibble of keybytesToHex
 NK     == Len(KeyTab)
@@ -374,7 +380,9 @@ Reopen(fresh) ==         \* trie.New(root, db) on the same / on a new Database o
   /\ UNCHANGED <<content, synced>>
   /\ last' = [op |-> IF fresh THEN "reopendisk" ELSE "reopen"]
 
-ProofResult(i) == IF root = NilN THEN Reject   \* as coded: the empty trie has no proof node
+\* Deviation of the code, named: the empty trie has no node, Prove emits nothing and
+\* VerifyProof fails with "proof node 0 missing" instead of confirming the absence.
+ProofResult(i) == IF root = NilN THEN (IF EmptyProofAsCoded THEN Reject ELSE Absent)
                   ELSE Verify(RootHash(root), Hex(i), ProofSet(root, Hex(i)))
 Prove(i) ==
   /\ UNCHANGED <<content, root, synced>>
@@ -435,11 +443,14 @@ NormalForm ==
      ELSE Cardinality({s \in Slots : n.ch[s] # NilN}) >= 2 /\ n.ch[T].t \in {"nil", "val"}
 \* (6) lookups return the last written value
 GetOK == \A i \in KIdx : TryGet(root, Hex(i)).v = content[i]
-\* (7) proofs: complete and sound for presence and absence (except that the empty
-\*     trie has no proof at all: VerifyProof(emptyRoot, ..) fails closed)
-ProofOK == root # NilN => \A i \in KIdx : ProofResult(i) = content[i]
+\* (7) proofs: complete and sound for presence and absence; with EmptyProofAsCoded the
+\*     empty trie is exempted (the harness reports that case on the real code)
+ProofOK == (EmptyProofAsCoded /\ root = NilN) \/ \A i \in KIdx : ProofResult(i) = content[i]
 \* (8) single-node tampering: replacing or dropping one proof node, by any node of any
 \*     other proof of this trie or by an edited copy, never changes the claim
+\*     (the proof nodes are a function of the content by (1)-(3), which hold in every state;
+\*     the battery is therefore evaluated once per content: right after the update that
+\*     produced it, when the root is new and nothing is cached)
 Edits(c) ==
   IF c.t = "short"
   THEN {[c EXCEPT !.val = x] : x \in {NilN} \cup {ValN(v) : v \in Vals}}
@@ -448,7 +459,7 @@ Edits(c) ==
   ELSE {[c EXCEPT !.ch[s] = x] : s \in Slots, x \in {NilN} \cup {ValN(v) : v \in Vals}}
 AllProofNodes == UNION {ProofSet(root, Hex(i)) : i \in KIdx}
 TamperOK ==
-  root # NilN =>
+  (Inner(root) /\ root.f.dirty /\ root.f.hc = NoHash) =>
     \A i \in KIdx :
       LET P == ProofSet(root, Hex(i))
           R == RootHash(root)
@@ -468,10 +479,6 @@ Stable == [][ last'.op \in {"get", "hash", "commit", "flush", "reopen", "reopend
               => content' = content /\ RootHash(root') = RootHash(root) ]_vars
 
 (* ---- export for the replay harness ----------------------------------------- *)
-RootStatus == IF root = NilN THEN "nil"
-              ELSE IF root.t = "hash" THEN "unloaded"
-              ELSE IF root.f.dirty THEN (IF root.f.hc = NoHash THEN "new" ELSE "hashed")
-              ELSE "clean"
 Proj(m, sy, rs) == [c |-> m, sy |-> sy, rs |-> rs]
 RootStatusOf(r) == IF r = NilN THEN "nil"
                    ELSE IF r.t = "hash" THEN "unloaded"
